@@ -121,6 +121,33 @@ fn supervise(args: &[String], mode: &Mode) -> i32 {
     }
 }
 
+/// Applications install a logger; the `log` macros evaluate their arguments only then. A logger that accepts
+/// every level and discards the record makes the code inside `error!`/`debug!` argument lists (and
+/// `log_enabled!`-guarded dumps) part of what the simulator executes.
+struct DiscardingLogger;
+impl log::Log for DiscardingLogger {
+    fn enabled(&self, _: &log::LogMetadata) -> bool {
+        true
+    }
+    fn log(&self, record: &log::LogRecord) {
+        // error-level messages are formatted (Display impls of the arguments run), then dropped; the
+        // chattier levels are dropped unformatted (their argument expressions have been evaluated already)
+        if record.level() <= log::LogLevel::Warn {
+            use std::io::Write;
+            let _ = write!(std::io::sink(), "{}", record.args());
+        }
+    }
+}
+fn install_discarding_logger() {
+    if std::env::var_os("TW2SIM_NO_LOGGER").is_some() {
+        return;
+    }
+    let _ = log::set_logger(|max| {
+        max.set(match std::env::var("TW2SIM_LOG_LEVEL").ok().as_deref() { Some("error") => log::LogLevelFilter::Error, Some("warn") => log::LogLevelFilter::Warn, Some("info") => log::LogLevelFilter::Info, Some("debug") => log::LogLevelFilter::Debug, _ => log::LogLevelFilter::Trace });
+        Box::new(DiscardingLogger)
+    });
+}
+
 fn main() {
     install_panic_hook();
     let args: Vec<String> = std::env::args().skip(1).collect();
@@ -180,6 +207,7 @@ fn main() {
     if plain {
         install_crash_handler();
     }
+    install_discarding_logger();
     let code = match prop.as_str() {
         "C01" => dispatch(&NetEngine { prop: NetProp::C01 }, &mode),
         "C02" => dispatch(&engines::c02::C02Engine, &mode),
